@@ -482,6 +482,60 @@ def reserved_field_names(d: str) -> Tuple[List[Dict[str, Any]], int]:
     return problems, n
 
 
+def manager_versions(_=None) -> Tuple[List[Dict[str, Any]], int]:
+    """the manager is a sender too: every frame it originates (acknowledgements, CLIENT_INFO / CLIENT_CLOSED, failure notices, the
+    periodic reports, its log records) carries version 0 or the hash of ITS OWN type - whatever the version of the client message it
+    is writing about"""
+    import logging
+    import pyrtma.core_defs as cd
+    from pyrtma.message_data import MessageData
+    from .. import mmx, proto as P
+
+    own = {v.type_id: v.type_hash for k, v in vars(cd).items() if isinstance(v, type) and issubclass(v, MessageData) and v is not MessageData and k.startswith("MDF_")}
+    problems: List[Dict[str, Any]] = []
+    n = 0
+    for tc in (False, True):
+        mmx.fresh_gc()
+        w = mmx.World(timecode=tc, log_level=logging.INFO)
+        try:
+            def join(slot, hid, mid, logger=0, subs=()):
+                c = w.client(slot, hid).connect()
+                w.settle()
+                c.send(P.mkframe(P.MT_CONNECT_V2, P.p_connect_v2(logger, 0, 0, mid, 0, slot.encode()), timecode=tc, src_mod_id=mid))
+                w.settle()
+                for t in subs:
+                    c.send(P.mkframe(P.MT_SUBSCRIBE, P.p_sub(t), timecode=tc, src_mod_id=mid))
+                w.settle()
+                return c
+
+            L = join("L", 1, 60, logger=1, subs=(P.ALL_MESSAGE_TYPES,))
+            S = join("S", 2, 31, subs=(1001,))
+            D = join("D", 3, 41, subs=(1001,))
+            Pp = join("P", 4, 21)
+            foreign = 0xA2587171
+            # a delivery that fails for a subscriber that is not writable, one that fails on the write, a departure, the timers
+            Pp.send(P.mkframe(1001, b"bulk" * 4, timecode=tc, src_mod_id=21, reserved=foreign))
+            w.step(0, nonwritable=["S"])
+            w.settle()
+            D.rst()
+            Pp.send(P.mkframe(1001, b"bulk" * 4, timecode=tc, src_mod_id=21, reserved=foreign))
+            w.step(0)
+            w.settle()
+            for dt in (1.05, 5.1):
+                w.tick(dt)
+                w.step()
+                w.settle()
+            for f in L.drain():
+                if f.src_mod_id != 0:
+                    continue
+                n += 1
+                if f.h[11] not in (0, own.get(f.msg_type, 0)):
+                    problems.append({"kind": "manager-frame-version", "msg_type": f.msg_type, "sent": hex(f.h[11]), "own_hash": hex(own.get(f.msg_type, 0)), "timecode": tc})
+        finally:
+            w.stop()
+    return problems, n
+
+
 def wire_versions(pyfile: str) -> Tuple[List[Dict[str, Any]], int]:
     """the version field the real Client puts on the wire for every class of the generated module and of core_defs"""
     from .. import clx, proto as P
@@ -579,6 +633,9 @@ def run(tier: str) -> int:
         p3, nwire = wire_versions(st["pyfile"])
         allp += p3
         totals["wire_frames"] = nwire
+        p7, nmf = manager_versions()
+        allp += p7
+        totals["manager_frames"] = nmf
         p4, nrb = rebuild_hashes(d)
         allp += p4
         totals["rebuild_hash_comparisons"] = nrb
